@@ -358,6 +358,9 @@ func grpcAddRequestMeta(contentTypePrefix string, meta requestMeta, headers http
 	if len(meta.acceptCompression) > 0 {
 		headers.Set("Grpc-Accept-Encoding", strings.Join(meta.acceptCompression, ", "))
 	}
+	// The only deadline the backend is told is the client's own: a header of this
+	// name among the client's metadata meant nothing in the client's protocol.
+	headers.Del("Grpc-Timeout")
 	if meta.hasTimeout {
 		timeoutStr := grpcEncodeTimeout(meta.timeout)
 		headers.Set("Grpc-Timeout", timeoutStr)
